@@ -2,6 +2,7 @@ package props
 
 import (
 	"fmt"
+	mbits "math/bits"
 
 	"github.com/openacid/low/bitmap"
 
@@ -27,7 +28,7 @@ func init() {
 		Word32: true,
 		Level:  "exploration",
 		Rule: "E1 bounded-exhaustive enumeration: (join) per width w in {1,2,4,8,16,32,64}: every value list of length ≤5 over {0,1,^0,0xa5a5…,1<<63}, and for a set of lengths up to 192/w+1 every list that is 0 everywhere except ≤2 positions taken from the non-zero alphabet values: len(Join) = ceil(len·w/64), Getw(result,i,w) = low w bits of values[i] for every i, popcount(result) = Σ popcount(low w bits) (no other bit set); " +
-			"(slice) every bitmap of ≤3 words over {0,^0,1,1<<63,0xdeadbeefcafebabe} × every 0 ≤ from ≤ to ≤ 64·len: result length ceil((to-from)/64), bit j = input bit from+j, all other bits 0, input unchanged (the argument carries 3 words of spare capacity holding a canary, which must be intact too). (long) Join on lists filling about 20 (thorough 70) words with ≤2 non-zero values at positions within 1 of a word boundary, and Slice on 20/70-word bitmaps (zero or all-ones with one island at every position) × every range with both ends within 1 of a word boundary. (big) Join on lists and Slice on bitmaps whose lengths lie within 9 of every power of two from 2^10 to 2^14 (Slice: 2^12 words). A case is one Join call with all its Getw probes, or one Slice call; non-trivial when some value/bit is non-zero and the list/range is non-empty.",
+			"(slice) every bitmap of ≤3 words over {0,^0,1,1<<63,0xdeadbeefcafebabe} × every 0 ≤ from ≤ to ≤ 64·len: result length ceil((to-from)/64), bit j = input bit from+j, all other bits 0, input unchanged (the argument carries 3 words of spare capacity holding a canary, which must be intact too). (long) Join on lists filling about 20 (thorough 70) words with ≤2 non-zero values at positions within 1 of a word boundary, and Slice on 20/70-word bitmaps (zero or all-ones with one island at every position) × every range with both ends within 1 of a word boundary. (big) Join on lists and Slice on bitmaps whose lengths lie within 9 of every power of two from 2^10 to 2^14 (Slice: 2^12 words). (giant, 64-bit builds) one sparse bitmap of 2^25 words: Slice on every range of ≤300 bits with both ends in {0, 64, 2^30, 2^30+7, MaxInt32-200.., MaxInt32} (13 values) and Getw at the first, middle and last three elements for every width. A case is one Join call with all its Getw probes, or one Slice call; non-trivial when some value/bit is non-zero and the list/range is non-empty.",
 		Assumptions: []string{"other values / word patterns and longer lists are not enumerated"},
 		Run:         c14Run,
 		Judge:       mc.JudgeOf(c14Judge),
@@ -240,6 +241,7 @@ func c14Run(c *mc.Ctx) {
 	})
 	c14Long(c)
 	c14Big(c)
+	c14Giant(c)
 	// (slice)
 	alpha := []uint64{0, ^uint64(0), 1, 1 << 63, 0xdeadbeefcafebabe}
 	var bms [][]uint64
@@ -449,7 +451,102 @@ func c14Big(c *mc.Ctx) {
 	})
 }
 
+// ---- the top of the int32 position range (64-bit builds): one sparse bitmap of 2^25 words
+
+func c14GiantBitmap() []uint64 {
+	l := 1 << 25
+	w := make([]uint64, l, l+3)
+	w[0] = 1<<63 | 1
+	w[l/2] = 0xa5
+	w[l-3] = 0xdeadbeefcafebabe
+	w[l-2] = 1<<63 | 0xf0
+	w[l-1] = 1<<63 | 1<<62 | 0x8001
+	for i := l; i < l+3; i++ {
+		w[:l+3][i] = 0xC5C5C5C5C5C5C5C5 // canary in the spare capacity
+	}
+	return w
+}
+
+// c14GiantSlice judges one Slice call on the giant bitmap; keep is a private copy.
+func c14GiantSlice(w, keep []uint64, from, to int32) (got, want string) {
+	r, p := slice(w, from, to)
+	wantLen := (int(to-from) + 63) / 64
+	if p != "" {
+		return p, fmt.Sprintf("%d words", wantLen)
+	}
+	if !eqU64(w[:len(w)+3], keep[:len(keep)+3]) {
+		return "input (or its spare capacity) changed", "input unchanged"
+	}
+	if len(r) != wantLen {
+		return fmt.Sprintf("%d words", len(r)), fmt.Sprintf("%d words", wantLen)
+	}
+	exp := make([]uint64, wantLen)
+	for j := int64(0); j < int64(to)-int64(from); j++ {
+		s := int64(from) + j
+		if keep[s>>6]>>uint(s&63)&1 == 1 {
+			exp[j>>6] |= 1 << uint(j&63)
+		}
+	}
+	if !eqU64(r, exp) {
+		return hexs(r), hexs(exp)
+	}
+	return "ok", "ok"
+}
+
+func c14GiantGetw(w []uint64, i, width int32) (got, want string) {
+	g, pp := getw(w, i, width)
+	pos := int64(i) * int64(width)
+	exp := lowBits(w[pos>>6]>>uint(pos&63), width)
+	return fmt.Sprintf("%#x panic=%v", g, pp), fmt.Sprintf("%#x panic=false", exp)
+}
+
+func c14Giant(c *mc.Ctx) {
+	if mbits.UintSize != 64 {
+		return
+	}
+	const M = int32(1<<31 - 1)
+	w := c14GiantBitmap()
+	keep := append([]uint64(nil), w[:len(w)+3]...)[:len(w)]
+	pts := []int32{0, 64, 1 << 30, 1<<30 + 7, M - 200, M - 129, M - 128, M - 127, M - 65, M - 64, M - 63, M - 1, M}
+	var evals int64
+	for _, from := range pts {
+		for _, to := range pts {
+			if from > to || int64(to)-int64(from) > 300 {
+				continue
+			}
+			if g, wnt := c14GiantSlice(w, keep, from, to); g != wnt {
+				c.Fail(6<<50|int64(from)<<20|int64(to&0xfffff), "SliceGiant", "Slice/giant", c14Case{From: from, To: to, Len: 1 << 25}, clipS(g), clipS(wnt))
+			}
+			evals++
+		}
+	}
+	for _, width := range c14Widths {
+		n := int32((int64(1) << 31) / int64(width)) // number of elements
+		for _, i := range []int32{0, 1, n / 2, n - 3, n - 2, n - 1} {
+			if i < 0 {
+				continue
+			}
+			if g, wnt := c14GiantGetw(w, i, width); g != wnt {
+				c.Fail(6<<50|1<<49|int64(width)<<32|int64(i), "GetwGiant", "Getw/giant", c14Case{W: width, From: i, Len: 1 << 25}, g, wnt)
+			}
+			evals++
+		}
+	}
+	c.Count(evals, evals)
+	c.Expect(evals)
+	c.Add("giant_bitmap_cases", evals)
+}
+
 func c14Judge(kind string, cs c14Case) (got, want string) {
+	switch kind {
+	case "SliceGiant":
+		w := c14GiantBitmap()
+		keep := append([]uint64(nil), w[:len(w)+3]...)[:len(w)]
+		g, wnt := c14GiantSlice(w, keep, cs.From, cs.To)
+		return clipS(g), clipS(wnt)
+	case "GetwGiant":
+		return c14GiantGetw(c14GiantBitmap(), cs.From, cs.W)
+	}
 	if cs.Len > 0 {
 		switch kind {
 		case "Join":
